@@ -49,14 +49,6 @@ pub closed spec fn stream_rest(s: Stream) -> Seq<u8> {
 pub closed spec fn stream_seek(s: Stream) -> int { s.seek as int }
 pub closed spec fn stream_same_data(a: Stream, b: Stream) -> bool { a.length == b.length && a.buffer@ == b.buffer@ }
 
-impl Bytes {
-//@ extract fn concat from src/classic/clvm/__type_compatibility__.rs in impl Bytes
-//@ sig r
-    requires bv(*self).len() + bv(*b).len() <= usize::MAX
-    ensures bv(r) == bv(*self) + bv(*b)
-//@ end
-}
-
 impl Stream {
 //@ note Stream::read: returns min(size, remaining) bytes from the cursor and advances by that many; nothing else changes
 //@ extract fn read from src/classic/clvm/__type_compatibility__.rs in impl Stream
